@@ -1,0 +1,26 @@
+// This Source Code Form is subject to the terms of the Mozilla Public
+// License, v. 2.0. If a copy of the MPL was not distributed with this
+// file, You can obtain one at http://mozilla.org/MPL/2.0/.
+
+//go:build verif
+
+package protobuf
+
+// Contracts for the deductive verifier in /verif (govc). Comment-only file: it
+// adds no code. Lines starting with //@ are parsed by govc; see /verif/DESIGN.md.
+
+// The protobuf resource codec is used through these assumed contracts by the callers that are
+// verified (server handlers); the codec bodies (registry lookups, reflection, generated
+// marshalling code) are outside the verifier's subset. They are listed as trusted in the evidence.
+
+//@ func Unmarshal
+//@   trusted
+//@   ensures err == nil ==> result0 != nil
+//@ func UnmarshalResource
+//@   trusted
+//@   ensures err == nil ==> result0 != nil
+//@ func FromResource
+//@   trusted
+//@   ensures err == nil ==> result0 != nil
+//@ func (*Resource).Marshal
+//@   trusted
